@@ -35,6 +35,15 @@ CHECKS = {
                  "forest in the explored space are compared in TLA+ with the tree set the recorded DAG represents and with the reference count.",
         "note": _GLR_NOTE + " Tree sets are materialised up to 60 trees; above that saturating counts and residues modulo four 15-bit primes.",
     },
+    "C05": {
+        "engine": "tlc-trace", "design_ref": "DESIGN.md 3.3, 7 C05",
+        "technique": "TLA+ canonical LR(1) reference (LR1.tla) walked in lock-step with every real LALR/SLR table (LRWalk.tla product states), TLC; termination by reference-derived state budget hook",
+        "level": "Every real table of the explored grammar space is walked by TLC against the canonical LR(1) automaton: in each product state nothing valid is "
+                 "missing, no reduction outside the LALR(1) lookahead / FOLLOW, no spurious shift; per table: construction terminates within 4*|LR(1)|+8 "
+                 "states, conflict reports agree with the multi-action cells.",
+        "note": "Trusted: TLC, the table projection (harness/real.table_json). Bounded: F(3,3), F(4,2), F(4,3) over 3 nonterminals sampled with fixed seeds, "
+                "seeded random grammars up to 8 productions; main and LAYOUT start productions; no claim beyond the bound.",
+    },
     "C17": {
         "engine": "tlc-trace", "design_ref": "DESIGN.md 7 C17",
         "technique": "CFG!RootsPrefix reference (all sentence prefixes ending at a lattice node) vs recorded consume_input=False forests, TLC",
